@@ -53,6 +53,16 @@ def run_wrapper(case, real=False):
     if not real:
         SL.splu, SL.gmres, SL.minres = splu, iterative("gmres"), iterative("minres")
     try:
+        if case.get("warm") and case["fmt"] in ("csr", "csc"):
+            # another solver has just been built for a different matrix with the same format, shape and stored values
+            # (the pattern differs): every solver object answers for the matrix it was given
+            B = A.copy()
+            B.indices = (n - 1 - B.indices).astype(B.indices.dtype)
+            try:
+                linear_solver(B, LinearSolverType[KINDS[case["kind"]]], symmetric=case["sym"]).solve(np.array(case["rhs"], dtype=float))
+            except (LinearSolverError, AssertionError):
+                pass
+            rec.update(called=False, bmat=[], brhs=[], bx0=None, btrans=False, odd=None)
         try:
             s = linear_solver(A, LinearSolverType[KINDS[case["kind"]]], symmetric=case["sym"])
         except LinearSolverError:
